@@ -276,10 +276,10 @@ Definition step (s : state) (x : ext) : sres :=
             | _ => Fault FStackUnderflow
             end
         | ISelf =>
-            match x_value x with
-            | Some v => Next (bump (with_stack s (v :: stack s)))
-            | None => Fault FFrameUnderflow
-            end
+            (* frames.first() exists here (we are executing a frame), so FrameUnderflow is
+               unreachable; the pushed handle is Process(own pid, root function) — own pid is an input *)
+            let v := match x_value x with Some v => v | None => VProc 0 (fr_fn (last (frames s) fr)) end in
+            Next (bump (with_stack s (v :: stack s)))
         | ISelect =>
             (* pops the source (tuple); completes with a value (complete_select), or the awaited
                process failed / a filter misbehaved (x_value = None) *)
